@@ -81,6 +81,7 @@ class Box:
         self.sends, self.recvs = [], []
         self.permanent = False
         self.toggled = False
+        self.after_blocking_failure = False   # a one-simcall blocking Comm (put_init()->wait(), Comm::send/recv) ended with an exception
         self.filters = False
         self.cause = None         # first point where the two-queue implementation of permanent receivers can leave the statement
 
@@ -400,6 +401,8 @@ def replay(out, prop, ended=True):
                     w = withdraw(hs[x])
                     res.count("mailbox_api_timeouts_of_%s_requests" % w)
             elif st.startswith("fail"):
+                if op in ("putw", "getw", "putf", "getf", "bput", "bget"):
+                    res.after_blocking_failure = True
                 if not failed(hd, kv, ev["ln"]):
                     continue
         elif op in ("wait", "test", "wany", "waitk"):
@@ -421,8 +424,8 @@ def replay(out, prop, ended=True):
             elif st == "timeout":
                 if hd is not None:
                     hd.waiting = False
-                    if op == "waitk":
-                        res.after_timeout = True      # wait_for() on a message-queue activity timed out and the activity lives on
+                    if hd.box.startswith("q"):
+                        res.after_timeout = True      # wait_for() on a message-queue activity timed out
                 res.count("wait_timeouts")
             elif st == "0":
                 hd.waiting = False
@@ -451,4 +454,5 @@ def replay(out, prop, ended=True):
     res.count("sends_still_pending_at_end", pend)
     res.toggled = any(b.toggled for b in boxes.values())
     res.qcontext = qcontext()
+    res.mcontext = "after-failed-blocking-comm" if res.after_blocking_failure else "permanent" if res.toggled else "plain"
     return res
